@@ -139,6 +139,11 @@ HasMembers(g) == g.t \in {"MultiLineString", "Polygon", "MultiPolygon", "Geometr
 Permuted(g) == {G(g.t, [i \in DOMAIN g.m |-> g.m[f[i]]]) : f \in Perms(Len(g.m))}
 Deleted(g) == {G(g.t, RemoveIdx(g.m, i)) : i \in DOMAIN g.m}
 Inserted(g) == IF Len(g.m) = 0 THEN {} ELSE {G(g.t, Append(g.m, MapV(G(g.t, <<g.m[1]>>), ShiftF).m[1]))}
+(* insertion of *empty* members: the member count changes although no vertex is added (at either end of the sequence) *)
+InsertedEmpty(g) == CASE g.t \in {"MultiLineString", "Polygon"} -> {G(g.t, Append(g.m, <<>>)), G(g.t, <<<<>>>> \o g.m), G(g.t, Append(Append(g.m, <<>>), <<>>))}
+                      [] g.t = "MultiPolygon" /\ Len(g.m) > 0 -> {G(g.t, Append(g.m, <<>>)), G(g.t, [g.m EXCEPT ![1] = Append(g.m[1], <<>>)])}
+                      [] g.t = "GeometryCollection" -> {G(g.t, Append(g.m, G("LineString", <<>>)))}
+                      [] OTHER -> {}
 RotRing(r, k) == IF IsClosedRing(r) THEN LET o == RotOpen(SubSeq(r, 1, Len(r) - 1), k) IN Append(o, o[1]) ELSE r
 Rotated(g) == CASE g.t = "Polygon" -> {G(g.t, [i \in DOMAIN g.m |-> RotRing(g.m[i], k)]) : k \in 1..3}
                 [] g.t = "MultiPolygon" -> {G(g.t, [i \in DOMAIN g.m |-> [j \in DOMAIN g.m[i] |-> RotRing(g.m[i][j], k)]]) : k \in 1..2}
@@ -157,9 +162,10 @@ Mutants(g) ==
     {g} \cup {MapV(g, JigF(s)) : s \in 0..2}
     \cup {MapV(g, DispF(v, d[1], d[2])) : v \in Verts(g), d \in {<<11, 0>>, <<0, -11>>, <<50, 50>>, <<9, -9>>}}
     \cup (IF HasMembers(g) THEN Permuted(g) \cup Deleted(g) \cup Inserted(g) ELSE {})
-    \cup Rotated(g) \cup Reversed(g) \cup Retyped(g) \cup Positional(g)
+    \cup Rotated(g) \cup Reversed(g) \cup Retyped(g) \cup Positional(g) \cup InsertedEmpty(g)
     \cup (IF HasMembers(g) THEN {MapV(x, JigF(1)) : x \in Permuted(g)} ELSE {}) \cup {MapV(x, JigF(1)) : x \in Rotated(g)}
 Pairs == UNION {{<<g, h>> : h \in Mutants(g)} : g \in Bases}
+         \cup UNION {{<<x, y>> : x \in InsertedEmpty(g), y \in InsertedEmpty(g)} : g \in Bases}      \* empty members on both sides
 
 VARIABLE pr
 Init == pr \in Pairs
